@@ -103,6 +103,30 @@ class Ctx:
 
 # ----------------------------------------------------------------------------------------------------------------------
 
+_PAR_STATE = {}
+
+
+def _par_worker(idx):
+    return idx, _PAR_STATE['func'](_PAR_STATE['items'][idx])
+
+
+def parallel_map(func, items, jobs: int | None = None):
+    """Map `func` over `items` in forked worker processes (the analysis state is inherited by fork, results must be
+    picklable).  Falls back to a plain loop for small inputs or when PFST_VERIF_JOBS=1."""
+    import multiprocessing as mp
+    jobs = jobs or int(os.environ.get('PFST_VERIF_JOBS', '0') or 0) or min(16, os.cpu_count() or 1)
+    if jobs <= 1 or len(items) < 8:
+        return [func(x) for x in items]
+    _PAR_STATE['func'], _PAR_STATE['items'] = func, items
+    ctxm = mp.get_context('fork')
+    out = [None] * len(items)
+    with ctxm.Pool(jobs) as pool:
+        for idx, res in pool.imap_unordered(_par_worker, range(len(items)), chunksize=2):
+            out[idx] = res
+    _PAR_STATE.clear()
+    return out
+
+
 def load_known() -> dict:
     if not os.path.exists(KNOWN_FILE):
         return {'findings': [], 'fixed': []}
